@@ -1184,6 +1184,21 @@ func propC13Pom(c *pomCase) (ev.Outcome, error) {
 		default:
 			cls["pom_upd_multi_property"] = true
 		}
+		if len(phs) > 0 && slotHit[s] {
+			for _, k := range affixClasses(s.verLit, to[s.name()]) {
+				cls[k] = true
+			}
+			// what the writer did: rewrote the property definitions, or <version> itself
+			for i, x := range an.slots {
+				if x == s {
+					if anOut.slots[i].verLit != s.verLit {
+						cls["pom_upd_interpolated_version_rewritten"] = true
+					} else {
+						cls["pom_upd_interpolated_property_rewritten"] = true
+					}
+				}
+			}
+		}
 		for _, p := range phs {
 			d := an.effDef(s, p)
 			for _, x := range an.slots {
@@ -1251,6 +1266,61 @@ func propC13Pom(c *pomCase) (ev.Outcome, error) {
 	}
 	sort.Strings(o.Classes)
 	return o, nil
+}
+
+// affixClasses describes an update of a property-interpolated version lit to the version
+// target: where lit has literal text, and whether target can be spelled as lit with other
+// property values whose ends share characters with the adjacent literal text.
+func affixClasses(lit, target string) []string {
+	lits, names := splitInterpolated(lit)
+	if len(names) == 0 {
+		return nil
+	}
+	pre, suf := lits[0], lits[len(lits)-1]
+	var out []string
+	if pre != "" {
+		out = append(out, "pom_upd_prop_prefix")
+	}
+	if suf != "" {
+		out = append(out, "pom_upd_prop_suffix")
+	}
+	if pre != "" && suf != "" {
+		out = append(out, "pom_upd_prop_prefix_and_suffix")
+	}
+	if len(names) > 1 {
+		out = append(out, "pom_upd_prop_multi")
+		if pre != "" || suf != "" {
+			out = append(out, "pom_upd_prop_multi_with_affix")
+		}
+	}
+	if pre == "" && suf == "" && len(names) == 1 {
+		return out
+	}
+	// the part of target left for the properties (and the literal text between them)
+	if len(target) <= len(pre)+len(suf) || !strings.HasPrefix(target, pre) || !strings.HasSuffix(target, suf) {
+		out = append(out, "pom_upd_target_not_expressible")
+		if pre != "" && !strings.HasPrefix(target, pre) {
+			out = append(out, "pom_upd_target_other_prefix")
+		}
+		if suf != "" && !strings.HasSuffix(target, suf) {
+			out = append(out, "pom_upd_target_other_suffix")
+		}
+		if strings.HasPrefix(target, pre) && strings.HasSuffix(target, suf) {
+			out = append(out, "pom_upd_target_nothing_left_for_property")
+		}
+		return out
+	}
+	mid := target[len(pre) : len(target)-len(suf)]
+	if suf != "" && strings.ContainsRune(suf, rune(mid[len(mid)-1])) {
+		out = append(out, "pom_upd_target_shares_suffix_chars")
+		if strings.Trim(mid, suf) == "" {
+			out = append(out, "pom_upd_target_only_suffix_chars")
+		}
+	}
+	if pre != "" && strings.ContainsRune(pre, rune(mid[0])) {
+		out = append(out, "pom_upd_target_shares_prefix_chars")
+	}
+	return out
 }
 
 func originName(s *pomSlot) string {
